@@ -175,6 +175,8 @@ class NPCI(PCI, DebugContents):
                 self.npduDADR = RemoteBroadcast(dnet)
             else:
                 self.npduDADR = RemoteStation(dnet, dadr)
+        else:
+            self.npduDADR = None
 
         # extract the source address
         if snetPresent:
@@ -188,12 +190,17 @@ class NPCI(PCI, DebugContents):
                 raise DecodingError("SADR can't be a remote broadcast")
 
             self.npduSADR = RemoteStation(snet, sadr)
+        else:
+            self.npduSADR = None
 
         # extract the hop count
         if dnetPresent:
             self.npduHopCount = pdu.get()
+        else:
+            self.npduHopCount = None
 
         # extract the network layer message type (if present)
+        self.npduVendorID = None
         if netLayerMessage:
             self.npduNetMessage = pdu.get()
             if (self.npduNetMessage >= 0x80) and (self.npduNetMessage <= 0xFF):
